@@ -212,6 +212,33 @@ fn c19_distance_3x2_symmetry_square() {
     distance_core(3, true);
 }
 
+/// Players with different numbers of infosets (two for player one, one for player two), exponent 2:
+/// each player's distance is the mean over THAT player's infosets of half the summed squared
+/// differences — pins the normaliser per player.
+#[kani::proof]
+#[kani::unwind(6)]
+#[kani::stub(f64::powf, powf_model)]
+fn c19_distance_unequal_tables() {
+    unsafe {
+        FIXED_TABLE = true;
+    }
+    let game = table_game([&[(0, &[0, 1]), (1, &[0, 1])], &[(0, &[0, 1])]], [&[], &[]]);
+    let (a, b, c, d) = (any_quarters2(), any_quarters2(), any_quarters2(), any_quarters2());
+    let (e, f) = (any_quarters2(), any_quarters2());
+    init_pow_table(2.0);
+    let s = Strategies { game: &game, probs: [Box::new([a[0], a[1], b[0], b[1]]) as Box<[f64]>, Box::new(e) as Box<[f64]>] };
+    let t = Strategies { game: &game, probs: [Box::new([c[0], c[1], d[0], d[1]]) as Box<[f64]>, Box::new(f) as Box<[f64]>] };
+    let dist = s.distance(&t, 2.0);
+    let sq = |x: f64| x * x;
+    let w1 = (sq(a[0] - c[0]) + sq(a[1] - c[1]) + sq(b[0] - d[0]) + sq(b[1] - d[1])) / 4.0;
+    let w2 = (sq(e[0] - f[0]) + sq(e[1] - f[1])) / 2.0;
+    kani::cover!(a[0] == 1.0 && c[0] == 0.0 && e[0] == f[0], "player one differs maximally in its first infoset, player two equal");
+    assert!(dist[0] == w1, "C19 value: player one's distance is not the mean over player one's infosets");
+    assert!(dist[1] == w2, "C19 value: player two's distance is not the mean over player two's infosets");
+    core::mem::forget(s);
+    core::mem::forget(t);
+}
+
 /// A player without any multi-action infoset: the distance is still a number (0).
 #[kani::proof]
 #[kani::unwind(4)]
